@@ -20,7 +20,8 @@ ASSUMPTIONS = ["vp/model.py 'ite' semantics: read-through to the selected target
 FLOORS = {"ref_retargets": {"quick": 500, "thorough": 8000}, "ref_target_ticks": {"quick": 1500, "thorough": 25000},
           "ref_republished_same": {"quick": 400, "thorough": 6000}, "ref_unselected_ticks": {"quick": 500, "thorough": 8000},
           "ref_retarget_to_invalid": {"quick": 30, "thorough": 500}, "runs_compared": {"quick": 20000, "thorough": 300000},
-          "coll_ref_retargets": {"quick": 150, "thorough": 2500}, "coll_ref_target_ticks": {"quick": 300, "thorough": 5000}}
+          "coll_ref_retargets": {"quick": 150, "thorough": 2500}, "coll_ref_target_ticks": {"quick": 300, "thorough": 5000},
+          "coll_ref_retarget_while_old_target_removes": {"quick": 15, "thorough": 250}}
 BATCH = 25
 
 
@@ -38,7 +39,7 @@ def gen_coll_ref(rng, name):
     busy = {int(e.split("|")[0]) for u in (1, 2) for e in c.cscripts[u]}
     free = [t for t in range(2, end) if t not in busy]
     flips = sorted(rng.sample(free, min(len(free), rng.choice([2, 4, 7])))) if free else []
-    coincident = sorted(rng.sample(sorted(busy - {0}), min(len(busy) - 1, rng.choice([0, 1, 2])))) if len(busy) > 1 else []
+    coincident = sorted(rng.sample(sorted(busy - {0}), min(len(busy) - 1, rng.choice([1, 2, 4, 6])))) if len(busy) > 1 else []
     val = rng.choice([0, 1])
     sc = [(1, val)]
     for t in sorted(set(flips) | set(coincident)):
@@ -78,7 +79,7 @@ def check_coll(case, tr):
     cond = dict(case.scripts[3])
     sel = None
     V = []
-    retargets = target_ticks = unselected = same = 0
+    retargets = target_ticks = unselected = same = old_removes = 0
     prev_vals = {1: None, 2: None}
     for t in range(case.start, case.end):
         before = {u: nodes[u].value() for u in (1, 2)}
@@ -113,7 +114,9 @@ def check_coll(case, tr):
             V.append(f"t={t}: value read through the reference {str(dump_value(d))[:80]} != selected target's value {str(tgt.value())[:80]}")
         if retarget:
             retargets += 1
-            if old is not None and t in case.meta["strict"]:
+            if old is not None and set(before[old]) - set(nodes[old].value()) - set(tgt.value()):
+                old_removes += 1        # the old target drops a key (absent from the new one) in the retarget cycle itself
+            if old is not None:
                 ov, nv = before[old], tgt.value()
                 eadd, erem = set(nv) - set(ov), set(ov) - set(nv)
                 gadd, grem = set(_key(x) for x in d["add"]), set(_key(x) for x in d["rem"])
@@ -133,7 +136,7 @@ def check_coll(case, tr):
     for m in V[:5]:
         res.violations.append(Violation(m))
     res.counters = {"coll_ref_retargets": retargets, "coll_ref_target_ticks": target_ticks, "coll_ref_unselected_ticks": unselected,
-                    "coll_ref_republished_same": same}
+                    "coll_ref_republished_same": same, "coll_ref_retarget_while_old_target_removes": old_removes}
     res.nontrivial = retargets >= 2
     return res
 
